@@ -314,7 +314,7 @@ def add_iteration_suffix(name):
     # pylint: disable=import-outside-toplevel
     import re
 
-    m = re.search(r"\d+$", name)
+    m = re.search(r"\d+\Z", name)
     n = "00"
     endstr = None
     midchar = "_" if name[-1:] != "_" else ""
